@@ -17,6 +17,11 @@ RULE = ('(a) draw signatures: every random-consuming API (rand/randn/normal/rand
         'inside Module.forward in training mode, inside optimizer.step (corrupted gradient), inside backward, inside a DataLoader transform, inside the Trainer callbacks, inside the criterion during validation, inside Trainer.test — '
         'every subset drawn per case, one case with all of them; each such program is run three times in ONE fresh process (and in several processes): the second and third run must reproduce the first '
         '(each run also hashes what the process-wide switches do: whether a product of a leaf tracks, whether a non-leaf keeps its gradient). '
+        '(d) REPETITION inside the run: every seeded program also records each of 36 sub-computations (every loss class with its reductions, every layer / activation class in train and eval mode, composite tensor-op expressions, a model with a loss; inputs are non-leaf) and '
+        'back-propagates k = 2 / 3 times over the SAME recorded graph with the gradients zeroed in between (bit-identical gradients required), twice without zeroing (accumulates to twice one pass), evaluates the same forward again from the same generator state '
+        '(bit-identical value and gradients) and sweeps the first graph once more; and (e) trains BatchNorm1d/2d models (momentum None = cumulative average in every program, numeric momenta incl. 0 and 1, track_running_stats / affine on and off) for 4 steps with 0 / a / b read-only '
+        'interludes after each step (eval-mode forwards with and without no_grad, validation passes, Trainer.test, Evaluator; drawn per program): final parameters, running statistics, the batch counter and predictions must not depend on the number of interludes. '
+        'Both are compared INSIDE the run (a dependence on the repetition count is the same in every run) and enter the hash. '
         'Non-trivial: a program that draws from >= 3 different APIs and trains.')
 EXHAUSTIVE = {'quick': False, 'thorough': False}
 ASSUMPTIONS = ['NumPy generators and BLAS are deterministic given the same state and inputs (not modelled)']
@@ -53,10 +58,41 @@ def cases(rng, tier):
     for k in range(4 if tier == 'quick' else 40):
         fs = list(FAULT_POINTS) if k == 0 else [f for f in FAULT_POINTS if rng.chance(.35)] or [rng.pick(FAULT_POINTS)]
         out.append({'kind': 'prog', 'seed': rng.randrange(2 ** 31), 'variant': rng.randrange(4), 'hashseeds': 2 if tier == 'quick' else 6, 'faults': fs, 'lines': ['rng dropout 1 0']})
+    # every seeded program REPEATS sub-computations (k backward passes over one graph, re-evaluated forwards; every loss / layer)
+    # and trains BatchNorm models with a variable number of read-only interludes between the steps
+    order = list(REPEAT_SUBS); rng.shuffle(order)
+    for i, c in enumerate([c for c in out if c['kind'] == 'prog']):
+        c['rep'] = _rep_params(rng, i, order, trainer=bool(c.get('faults')))
     for c in out:
-        c['desc'] = {k: v for k, v in c.items() if k != 'lines'}
+        c['desc'] = {k: (v if k != 'rep' else dict(v, subs=f"{len(v['subs'])} sub-computations")) for k, v in c.items() if k != 'lines'}
     _FAULT_BATCH[:] = [c for c in out if c.get('faults')]
     return out
+
+
+REPEAT_SUBS = ('MSELoss', 'MSELoss/sum', 'NLLLoss', 'BCELoss', 'BCEWithLogitsLoss', 'CrossEntropyLoss', 'CrossEntropyLoss/none', 'F.cross_entropy', 'Linear', 'Linear/no-bias', 'Neuron', 'Flatten', 'Dropout/train',
+               'MaxPool1d', 'MaxPool2d', 'AvgPool1d', 'AvgPool2d', 'Conv1d', 'Conv2d', 'BatchNorm1d/train', 'BatchNorm1d/eval', 'BatchNorm2d/train', 'BatchNorm2d/cumulative', 'Unfold', 'Fold',
+               'ReLU', 'LeakyReLU', 'SELU', 'Sigmoid', 'Tanh', 'Softmax', 'LogSoftmax', 'tensor-ops/pointwise', 'tensor-ops/reduce-index', 'tensor-ops/matmul-join', 'model+loss')
+INTERLUDES = ('eval-forward/no_grad', 'eval-forward/tracked', 'validation-pass', 'trainer-test', 'evaluator', 'eval-forward-twice')
+
+
+NSUBS = 12
+
+
+def _rep_params(rng, i=None, order=None, trainer=True):
+    """what a seeded program repeats: k backward passes over each of NSUBS recorded sub-computations (program i of a run takes
+    the i-th window of the run's random order of all of them, so three programs cover every one), and BatchNorm configurations
+    (momentum None = cumulative average always among them) trained with 0 / a / b read-only interludes per step.
+    `trainer`: may the interludes use Trainer / Evaluator (their import costs a fresh process seconds: the programs that
+    meet faults import them anyway, the others leave them out)"""
+    if order is None:
+        order = list(REPEAT_SUBS); rng.shuffle(order)
+    i = rng.randrange(len(order)) if i is None else i
+    subs = [order[(NSUBS * i + j) % len(order)] for j in range(NSUBS)]
+    bn = [[None, True, rng.chance(.7), rng.pick([1, 2])], [rng.pick([None, 0.1, 0.5, 1.0, 0.0]), rng.chance(.7), rng.chance(.7), rng.pick([1, 2])]]
+    pool = [k for k in INTERLUDES if trainer or k not in ('trainer-test', 'evaluator')]
+    kinds = [k for k in pool if rng.chance(.5)] or [rng.pick(pool)]
+    rng.shuffle(kinds)
+    return {'k': rng.pick([2, 3]), 'subs': subs, 'bn': bn, 'counts': [0] + sorted(rng.sample([1, 2, 3], 2)), 'interludes': kinds}
 
 
 def _signature(c):
@@ -221,7 +257,158 @@ def run_faults(add, faults):
         guarded(name, f)
     add(np.array(caught, dtype=np.int64))
     for p_ in model.parameters(): add(p_.data)
-def program(seed, variant, layout=0, faults=()):
+REPEAT_SUBS = ('MSELoss', 'MSELoss/sum', 'NLLLoss', 'BCELoss', 'BCEWithLogitsLoss', 'CrossEntropyLoss', 'CrossEntropyLoss/none', 'F.cross_entropy', 'Linear', 'Linear/no-bias', 'Neuron', 'Flatten', 'Dropout/train',
+               'MaxPool1d', 'MaxPool2d', 'AvgPool1d', 'AvgPool2d', 'Conv1d', 'Conv2d', 'BatchNorm1d/train', 'BatchNorm1d/eval', 'BatchNorm2d/train', 'BatchNorm2d/cumulative', 'Unfold', 'Fold',
+               'ReLU', 'LeakyReLU', 'SELU', 'Sigmoid', 'Tanh', 'Softmax', 'LogSoftmax', 'tensor-ops/pointwise', 'tensor-ops/reduce-index', 'tensor-ops/matmul-join', 'model+loss')
+def run_repeats(add, diffs, k, subs):
+    """REPEAT sub-computations: backward k times over the SAME recorded graph (gradients zeroed in between), twice without zeroing
+    (accumulation), and the same forward evaluated again — the j-th repetition must reproduce the first one bit for bit"""
+    F = sg.nn.functional
+    rnd = lambda *sh: (np.random.rand(*sh).astype(np.float32) * 2 - 1)
+    def leaf(*sh): return sg.Tensor(rnd(*sh), requires_grad=True)
+    labels = lambda n, c: sg.Tensor((np.arange(n) * 2 % c).astype(np.int8), dtype=np.int8)
+    def layer(m, *sh, eval_=False, pre=None):
+        def make():
+            x0 = leaf(*sh); wgt = sg.Tensor(rnd(1)[0] + rnd(*m(sg.Tensor(rnd(*sh))).shape))
+            if pre: pre(m)
+            m.eval() if eval_ else m.train()
+            return [x0] + list(m.parameters()), (lambda: (m(x0 * 1.0) * wgt).sum()), None
+        return make
+    def loss(L, kind, red='mean'):
+        def make():
+            if kind == 'class':
+                z0 = leaf(5, 4); y = labels(5, 4)
+                f = (lambda: L(F.log_softmax(z0 * 1.0, 1), y)) if isinstance(L, nn.NLLLoss) else (lambda: L(z0 * 1.0, y))
+            elif kind == 'prob':
+                z0 = leaf(6); y = sg.Tensor((np.arange(6) % 2).astype(np.float32)); f = lambda: L(F.sigmoid(z0 * 1.0), y)
+            else:
+                z0 = leaf(6); y = sg.Tensor(rnd(6) if kind == 'real' else (np.arange(6) % 2).astype(np.float32)); f = lambda: L(z0 * 1.0, y)
+            up = sg.Tensor(rnd(5)) if red == 'none' and kind == 'class' else sg.Tensor(rnd(6)) if red == 'none' else None
+            return [z0], f, up
+        return make
+    def warm(m):        # running statistics that are not the initial ones
+        m.train(); m(sg.Tensor(rnd(6, m.num_features) if isinstance(m, nn.BatchNorm1d) else rnd(3, m.num_features, 2, 2)))
+    def t_pointwise():
+        a, b = leaf(2, 3), leaf(2, 3)
+        return [a, b], (lambda: ((a * b).exp() / (b * b + 1.5) + (a * a + 0.5).sqrt() * (a * a + 1.0).log() - (a + 2.0) ** 1.5 + (-b).clone() + 2.0 ** a).sum()), None
+    def t_reduce():
+        a = leaf(3, 4)
+        return [a], (lambda: (a.max(1) * a.min(0).sum() + a.mean(0).sum() * a[1:, ::2].sum() + a.transpose(0, 1).reshape((2, 6)).sum(0)[2] + a.squeeze().unsqueeze(0).flatten()[3])), sg.Tensor(rnd(3))
+    def t_matmul():
+        a, b = leaf(3, 4), leaf(4, 2)
+        def f():
+            c = a @ b
+            parts = sg.unbind(c, 0)
+            return (sg.stack([parts[0], parts[2] * parts[1]], 0).sum() + sg.concat([c, c * 2.0], 1).mean()) * c.sum()
+        return [a, b], f, None
+    def t_model():
+        model = nn.Sequential(nn.Conv1d(2, 3, 2), nn.BatchNorm1d(3), nn.ReLU(), nn.MaxPool1d(2), nn.Flatten(), nn.Dropout(0.3), nn.Linear(6, 4))
+        x0 = leaf(5, 2, 5); y = labels(5, 4); crit = nn.CrossEntropyLoss()
+        return [x0] + list(model.parameters()), (lambda: crit(model(x0), y)), None
+    table = {
+        'MSELoss': loss(nn.MSELoss(), 'real'), 'MSELoss/sum': loss(nn.MSELoss(reduction='sum'), 'real'), 'NLLLoss': loss(nn.NLLLoss(), 'class'), 'BCELoss': loss(nn.BCELoss(), 'prob'),
+        'BCEWithLogitsLoss': loss(nn.BCEWithLogitsLoss(), 'binary'), 'CrossEntropyLoss': loss(nn.CrossEntropyLoss(), 'class'), 'CrossEntropyLoss/none': loss(nn.CrossEntropyLoss(reduction='none'), 'class', 'none'),
+        'F.cross_entropy': loss(lambda z, y: F.cross_entropy(z, y).sum(), 'class'),
+        'Linear': layer(nn.Linear(3, 2), 4, 3), 'Linear/no-bias': layer(nn.Linear(3, 2, bias=False), 4, 3), 'Neuron': layer(nn.Neuron(3), 4, 3), 'Flatten': layer(nn.Flatten(), 2, 3, 2),
+        'Dropout/train': layer(nn.Dropout(0.4), 4, 5), 'MaxPool1d': layer(nn.MaxPool1d(2), 2, 2, 6), 'MaxPool2d': layer(nn.MaxPool2d(2, stride=1), 2, 1, 3, 3), 'AvgPool1d': layer(nn.AvgPool1d(2), 2, 2, 6),
+        'AvgPool2d': layer(nn.AvgPool2d(2), 1, 2, 4, 4), 'Conv1d': layer(nn.Conv1d(2, 3, 2, padding=1), 2, 2, 5), 'Conv2d': layer(nn.Conv2d(1, 2, (2, 2), stride=1), 2, 1, 3, 4),
+        'BatchNorm1d/train': layer(nn.BatchNorm1d(3), 5, 3), 'BatchNorm1d/eval': layer(nn.BatchNorm1d(3), 5, 3, eval_=True, pre=warm), 'BatchNorm2d/train': layer(nn.BatchNorm2d(2), 3, 2, 2, 2),
+        'BatchNorm2d/cumulative': layer(nn.BatchNorm2d(2, momentum=None), 3, 2, 2, 2, pre=warm), 'Unfold': layer(nn.Unfold(2), 1, 2, 3, 3), 'Fold': layer(nn.Fold((3, 3), 2), 1, 8, 4),
+        'ReLU': layer(nn.ReLU(), 3, 4), 'LeakyReLU': layer(nn.LeakyReLU(0.1), 3, 4), 'SELU': layer(nn.SELU(), 3, 4), 'Sigmoid': layer(nn.Sigmoid(), 3, 4), 'Tanh': layer(nn.Tanh(), 3, 4),
+        'Softmax': layer(nn.Softmax(1), 3, 4), 'LogSoftmax': layer(nn.LogSoftmax(1), 3, 4),
+        'tensor-ops/pointwise': t_pointwise, 'tensor-ops/reduce-index': t_reduce, 'tensor-ops/matmul-join': t_matmul, 'model+loss': t_model}
+    assert sorted(table) == sorted(REPEAT_SUBS)
+    same = lambda a, b: len(a) == len(b) and all((x is None and y is None) or (x is not None and y is not None and x.dtype == y.dtype and x.shape == y.shape and x.tobytes() == y.tobytes()) for x, y in zip(a, b))
+    for name in subs:
+        leaves, fwd, up = table[name]()
+        def grads(root):
+            for p in leaves:
+                if p.requires_grad: p.zero_()
+            root.backward(up) if up is not None else root.backward()
+            return [None if p._grad is None else np.array(p._grad) for p in leaves]
+        state = np.random.get_state()
+        root = fwd()
+        out1 = np.array(root.data)
+        g1 = grads(root)
+        add(out1)
+        for g in g1:
+            if g is not None: add(g)
+        for j in range(2, k + 1):
+            if not same(grads(root), g1): diffs.append(f'{name}: backward #{j} over the same recorded graph (gradients zeroed in between) gives gradients that differ from those of backward #1'); break
+        ga = grads(root)
+        root.backward(up) if up is not None else root.backward()            # a second sweep without zeroing: accumulation
+        gacc = [None if p._grad is None else np.array(p._grad) for p in leaves]
+        # (a leaf used several times receives its contributions one by one: (g + c1) + c2 is 2g only up to rounding)
+        if not all((a is None and b is None) or (a is not None and b is not None and np.allclose(a + a, b, rtol=1e-4, atol=1e-6, equal_nan=True)) for a, b in zip(ga, gacc)):
+            diffs.append(f'{name}: two backward passes over the same recorded graph without zeroing do not accumulate to twice the gradient of one pass')
+        np.random.set_state(state)
+        root2 = fwd()                                                        # the same forward evaluated again (same generator state)
+        if not same([np.array(root2.data)], [out1]): diffs.append(f'{name}: the same forward evaluated a second time gives a different value')
+        elif not same(grads(root2), g1): diffs.append(f'{name}: the same forward evaluated a second time gives different gradients')
+        if not same(grads(root), g1): diffs.append(f'{name}: backward over the first graph after the second evaluation differs from backward #1')
+INTERLUDES = ('eval-forward/no_grad', 'eval-forward/tracked', 'validation-pass', 'trainer-test', 'evaluator', 'eval-forward-twice')
+def run_interludes(add, diffs, configs, counts, kinds):
+    """training steps with a VARIABLE number of read-only interludes (eval-mode forwards, validation passes, Trainer.test) in between:
+    final parameters, BatchNorm buffers and predictions must not depend on how many read-only passes ran"""
+    if 'trainer-test' in kinds or 'evaluator' in kinds:
+        from synapgrad.nn.utils.train import Trainer, Evaluator
+    F = sg.nn.functional
+    data = np.random.rand(40, 4).astype(np.float32)
+    state = np.random.get_state()
+    def train(cfg, n_inter):
+        momentum, track, affine, dims = cfg
+        np.random.set_state(state)
+        if dims == 1:
+            model = nn.Sequential(nn.Linear(4, 5), nn.BatchNorm1d(5, momentum=momentum, affine=affine, track_running_stats=track), nn.ReLU(), nn.Dropout(0.2), nn.Linear(5, 1))
+            shape = lambda a: a
+        else:
+            model = nn.Sequential(nn.Conv2d(1, 3, (2, 1)), nn.BatchNorm2d(3, momentum=momentum, affine=affine, track_running_stats=track), nn.ReLU(), nn.Flatten(), nn.Dropout(0.2), nn.Linear(6, 1))
+            shape = lambda a: a.reshape(len(a), 1, 2, 2)
+        bn = model.submodules()[1]
+        opt = optim.SGD(model.parameters(), lr=0.05, momentum=0.9)
+        mse = nn.MSELoss()
+        yv = (data.sum(1) > 2.0).astype(np.float32)
+        xval, yval = sg.Tensor(shape(data[30:])), sg.Tensor(yv[30:])
+        ev = Evaluator(mode=Evaluator.BINARY) if 'trainer-test' in kinds or 'evaluator' in kinds else None
+        def interlude(kind):
+            model.eval()
+            if kind == 'eval-forward/no_grad':
+                with sg.no_grad(): model(xval)
+            elif kind == 'eval-forward/tracked': model(xval)
+            elif kind == 'eval-forward-twice':
+                with sg.no_grad(): model(xval); model(sg.Tensor(shape(data[20:26])))
+            elif kind == 'validation-pass':
+                with sg.no_grad():
+                    for lo in (30, 35): mse(model(sg.Tensor(shape(data[lo:lo + 5]))).squeeze(dim=1), sg.Tensor(yv[lo:lo + 5])).item()
+            elif kind == 'trainer-test':
+                tr = Trainer(model, sg); tr.compile(mse, opt, ev); tr.test([(xval, yval), (sg.Tensor(shape(data[26:30])), sg.Tensor(yv[26:30]))])
+            elif kind == 'evaluator':
+                with sg.no_grad(): ev.step(yval, F.sigmoid(model(xval)), prefix='val'); ev.compute(prefix='val')
+            model.train()
+        for step in range(4):
+            model.train()
+            xb, yb = sg.Tensor(shape(data[step * 6:step * 6 + 6])), sg.Tensor(yv[step * 6:step * 6 + 6])
+            l_ = mse(model(xb).squeeze(dim=1), yb)
+            opt.zero_grad(); l_.backward(); opt.step()
+            for i in range(n_inter): interlude(kinds[(step + i) % len(kinds)])
+        model.eval()
+        with sg.no_grad(): pred = model(xval)
+        res = {'prediction': np.array(pred.data), 'num_batches_tracked': np.array([-1 if bn.num_batches_tracked is None else int(bn.num_batches_tracked)])}
+        for i, p_ in enumerate(model.parameters()): res[f'parameter {i}'] = np.array(p_.data)
+        for nm in ('running_mean', 'running_var'):
+            b = getattr(bn, nm, None)
+            if b is not None: res[nm] = np.array(b.data)
+        return res
+    for cfg in configs:
+        base = train(cfg, 0)
+        for k_ in sorted(base): add(base[k_])
+        for n_inter in counts:
+            if n_inter == 0: continue
+            r = train(cfg, n_inter)
+            bad = [k_ for k_ in sorted(base) if k_ not in r or r[k_].shape != base[k_].shape or r[k_].tobytes() != base[k_].tobytes()]
+            if bad:
+                diffs.append(f'BatchNorm{cfg[3]}d(momentum={cfg[0]}, track_running_stats={cfg[1]}, affine={cfg[2]}): 4 training steps with {n_inter} read-only interlude(s) {list(kinds)} after each step end with different {bad} than with none'); break
+def program(seed, variant, layout=0, faults=(), rep=None):
     h = hashlib.sha256()
     def add(a): h.update(np.ascontiguousarray(a).tobytes()); h.update(str(a.shape).encode()); h.update(str(a.dtype).encode())
     sg.manual_seed(seed)
@@ -277,24 +464,33 @@ def program(seed, variant, layout=0, faults=()):
         msk = sg.Tensor(np.array([1.0, 0.0, 2.0, 0.0, 0.0], dtype=np.float32))
         for _ in range(2):
             o.zero_grad(); (q * msk).sum().backward(); o.step(); add(q.data)
+    # sub-computations REPEATED inside the run, and training with a variable number of read-only interludes: what the j-th
+    # repetition / the run with n interludes produces is compared with the first / with none INSIDE the run (a dependence on the
+    # number of repetitions is the same in every run, so the run-to-run comparison of the hashes cannot see it)
+    diffs = []
+    if rep:
+        run_repeats(add, diffs, rep['k'], rep['subs'])
+        run_interludes(add, diffs, rep['bn'], rep['counts'], rep['interludes'])
     # faults met and survived at the END of the run: the next run in this process must not notice that they happened
     if faults:
         run_faults(add, faults)
         observe_modes(add)
-    return h.hexdigest()
+    return h.hexdigest() + ('|REPEAT-DIFFERS:' + '@@'.join(diffs).replace(' ', '~') if diffs else '')
 '''
 
 
-def _prog_inprocess(seed, variant, layout=0):
+def _prog_inprocess(seed, variant, layout=0, rep=None):
     ns = {'STUBS': os.path.join(common.VERIF, 'harness', 'stubs'), 'REPO': common.REPO}
     common.impl()
     exec(PROGRAM, ns)
+    assert tuple(ns['REPEAT_SUBS']) == REPEAT_SUBS and tuple(ns['INTERLUDES']) == INTERLUDES
     with common.quiet():
-        return ns['program'](seed, variant, layout)
+        return ns['program'](seed, variant, layout, (), rep)
 
 
-def _prog_subprocess(seed, variant, hashseed):
-    code = f"STUBS={os.path.join(common.VERIF, 'harness', 'stubs')!r}\nREPO={common.REPO!r}\n" + PROGRAM + f"\nprint(program({seed}, {variant}, {hashseed % 13}))\n"
+def _prog_subprocess(seed, variant, hashseed, rep=None):
+    code = (f"STUBS={os.path.join(common.VERIF, 'harness', 'stubs')!r}\nREPO={common.REPO!r}\n" + PROGRAM +
+            f"\nimport io, contextlib\nwith contextlib.redirect_stdout(io.StringIO()): res = program({seed}, {variant}, {hashseed % 13}, (), {rep!r})\nprint(res)\n")
     env = dict(os.environ, PYTHONHASHSEED=str(hashseed))
     p = subprocess.run([sys.executable, '-c', code], capture_output=True, text=True, env=env, timeout=300)
     if p.returncode != 0:
@@ -307,12 +503,12 @@ FAULT_POINTS = ['no_grad/library-raises', 'no_grad/user-raises', 'no_grad/nested
 NREP_FAULTS = 3
 
 
-def _prog_faults_subprocess(seed, variant, hashseed, faults):
+def _prog_faults_subprocess(seed, variant, hashseed, faults, rep=None):
     """the program with its fault section, NREP_FAULTS times in ONE fresh process; returns the list of hashes (a run that raises
     gives `raised:<type>`)"""
     code = (f"STUBS={os.path.join(common.VERIF, 'harness', 'stubs')!r}\nREPO={common.REPO!r}\n" + PROGRAM +
             f"\nassert list(FAULTS) == {FAULT_POINTS!r}\nimport io, contextlib\nres = []\nfor k in range({NREP_FAULTS}):\n"
-            f"    try:\n        with contextlib.redirect_stdout(io.StringIO()): res.append(program({seed}, {variant}, {hashseed % 13}, {tuple(faults)!r}))\n"
+            f"    try:\n        with contextlib.redirect_stdout(io.StringIO()): res.append(program({seed}, {variant}, {hashseed % 13}, {tuple(faults)!r}, {rep!r}))\n"
             f"    except Exception as e: res.append('raised:' + type(e).__name__ + ':' + str(e)[:80].replace(' ', '_'))\nprint('HASHES ' + ' '.join(res))\n")
     env = dict(os.environ, PYTHONHASHSEED=str(hashseed))
     p = subprocess.run([sys.executable, '-c', code], capture_output=True, text=True, env=env, timeout=300)
@@ -326,7 +522,7 @@ def _fault_runs(c, faults=None, nproc=None):
     from concurrent.futures import ThreadPoolExecutor
     faults = c['faults'] if faults is None else faults
     with ThreadPoolExecutor(max_workers=min(16, os.cpu_count() or 4)) as ex:
-        return list(ex.map(lambda k: _prog_faults_subprocess(c['seed'], c['variant'], 1 + 7919 * k, faults), range(nproc or c['hashseeds'])))
+        return list(ex.map(lambda k: _prog_faults_subprocess(c['seed'], c['variant'], 1 + 7919 * k, faults, c.get('rep')), range(nproc or c['hashseeds'])))
 
 
 NREP = 8
@@ -342,7 +538,7 @@ def _hashes(c):
                 from concurrent.futures import ThreadPoolExecutor
                 jobs = [(b, k) for b in _FAULT_BATCH for k in range(b['hashseeds'])]
                 with ThreadPoolExecutor(max_workers=min(16, os.cpu_count() or 4)) as ex:
-                    res = list(ex.map(lambda j: _prog_faults_subprocess(j[0]['seed'], j[0]['variant'], 1 + 7919 * j[1], j[0]['faults']), jobs))
+                    res = list(ex.map(lambda j: _prog_faults_subprocess(j[0]['seed'], j[0]['variant'], 1 + 7919 * j[1], j[0]['faults'], j[0].get('rep')), jobs))
                 for b in _FAULT_BATCH: b['_runs'] = []
                 for (b, k), r in zip(jobs, res): b['_runs'].append(r)
             return [h for run in c['_runs'] for h in run]
@@ -350,11 +546,11 @@ def _hashes(c):
     keep = []
     hs = []
     for k in range(NREP):
-        hs.append(_prog_inprocess(c['seed'], c['variant'], (5 * k) % 17))
+        hs.append(_prog_inprocess(c['seed'], c['variant'], (5 * k) % 17, c.get('rep')))
         keep.append([object() for _ in range(37 * k)])      # shifts later allocations
     from concurrent.futures import ThreadPoolExecutor
     with ThreadPoolExecutor(max_workers=min(16, os.cpu_count() or 4)) as ex:
-        hs += list(ex.map(lambda k: _prog_subprocess(c['seed'], c['variant'], 1 + 7919 * k), range(c['hashseeds'])))
+        hs += list(ex.map(lambda k: _prog_subprocess(c['seed'], c['variant'], 1 + 7919 * k, c.get('rep')), range(c['hashseeds'])))
     return hs
 
 
@@ -373,8 +569,22 @@ def compare(c, mo, io):
     if hs == 'rejected' or any(str(h).startswith(('rejected', 'raised')) for h in hs):
         return [('program', 'runs', str(hs)[:300])]
     if len(set(hs)) != 1:
-        return [('program', 'identical hashes over repetitions / processes / PYTHONHASHSEED', str(hs))]
+        return [('program', 'identical hashes over repetitions / processes / PYTHONHASHSEED', str(hs)[:600])]
+    rd = _repeat_diffs(hs)
+    if rd:
+        return [('program', 'the j-th repetition of a sub-computation reproduces the first / read-only interludes leave no trace', '; '.join(rd)[:600])]
     return []
+
+
+def _repeat_diffs(hs):
+    """the in-run comparisons that failed (the program appends them to its hash), as readable text, each once"""
+    out = []
+    for h in hs if isinstance(hs, (list, tuple)) else []:
+        if '|REPEAT-DIFFERS:' in str(h):
+            for d in str(h).split('|REPEAT-DIFFERS:', 1)[1].split('@@'):
+                d = d.replace('~', ' ')
+                if d not in out: out.append(d)
+    return out
 
 
 def nontrivial(c):
@@ -388,6 +598,16 @@ def distribution(cases):
         d[k] = d.get(k, 0) + 1
         for f in c.get('faults', []):
             d[f'fault survived: {f}'] = d.get(f'fault survived: {f}', 0) + 1
+        r = c.get('rep')
+        if r:
+            d[f"repeated: {r['k']} backward passes over each of {len(r['subs'])} recorded sub-computations (+ accumulation, + re-evaluated forward)"] = d.get(f"repeated: {r['k']} backward passes over each of {len(r['subs'])} recorded sub-computations (+ accumulation, + re-evaluated forward)", 0) + 1
+            for b in r['bn']:
+                k = f"interludes: BatchNorm{b[3]}d momentum={b[0]} track_running_stats={b[1]} affine={b[2]}"
+                d[k] = d.get(k, 0) + 1
+            k = f"interludes: read-only passes per training step {r['counts']}"
+            d[k] = d.get(k, 0) + 1
+            for i_ in r['interludes']:
+                d[f'interlude kind: {i_}'] = d.get(f'interlude kind: {i_}', 0) + 1
     return d
 
 
@@ -408,11 +628,33 @@ def oracle(c):
     hs = outcome(lambda: _hashes(c))
     if hs == 'rejected' or any(str(h).startswith('rejected') for h in hs):
         return {'key': {'cls': 'program-raises'}, 'case': cc, 'what': f'seeded program raised: {hs}'}
+    rd = _repeat_diffs(hs)
+    if rd:
+        return _repeat_failure(cc, rd)
     if len(set(hs)) != 1:
         inproc = len(set(hs[:NREP])) != 1
         return {'key': {'cls': 'in-process' if inproc else 'across-processes'}, 'case': cc,
                 'what': f'the same seeded program produced different bit patterns ({"repeated in one process" if inproc else "in fresh processes under different PYTHONHASHSEED"}): {hs}'}
     return None
+
+
+def _repeat_failure(cc, rd):
+    """a repetition inside the seeded program did not reproduce the first one: shrink the program's repeated part to the first
+    sub-computation / BatchNorm configuration named (the replayed case then runs only that one)"""
+    first = rd[0]
+    name = first.split(':', 1)[0]
+    rep = dict(cc.get('rep') or {})
+    if name in REPEAT_SUBS:
+        small = dict(rep, subs=[name], bn=[])
+    else:
+        small = dict(rep, subs=[], bn=[b for b in rep.get('bn', []) if first.startswith(f'BatchNorm{b[3]}d(momentum={b[0]}, track_running_stats={b[1]}, affine={b[2]})')][:1] or rep.get('bn', []))
+    c2 = dict(cc, rep=small, hashseeds=1)
+    c2.pop('faults', None)
+    hs2 = outcome(lambda: [_prog_inprocess(c2['seed'], c2['variant'], 0, small), _prog_subprocess(c2['seed'], c2['variant'], 1, small)])
+    rd2 = _repeat_diffs(hs2)
+    if rd2: cc, rd = c2, rd2
+    return {'key': {'cls': 'repetition', 'sub': name}, 'case': cc,
+            'what': 'inside one run of the seeded program (manual_seed, fixed data) a repeated computation does not reproduce itself: ' + '; '.join(rd)[:1500]}
 
 
 def _oracle_faults(c, cc):
@@ -422,6 +664,8 @@ def _oracle_faults(c, cc):
         flat = [h for r in runs for h in r]
         if any(h.startswith('rejected') for h in flat):
             return 'program-raises', f'the fresh process failed: {flat}'
+        if _repeat_diffs(flat):
+            return 'repetition', '; '.join(_repeat_diffs(flat))[:1500]
         for r in runs:
             if len(set(r)) != 1:
                 return 'in-process-after-fault', f'runs 1..{len(r)} of the same seeded program in ONE fresh process gave {r}'
@@ -433,9 +677,11 @@ def _oracle_faults(c, cc):
     from concurrent.futures import ThreadPoolExecutor
     jobs = [(i, k) for i in range(len(sets)) for k in range(2)]
     with ThreadPoolExecutor(max_workers=min(16, os.cpu_count() or 4)) as ex:
-        res = list(ex.map(lambda j: _prog_faults_subprocess(c['seed'], c['variant'], 1 + 7919 * j[1], sets[j[0]]), jobs))
+        res = list(ex.map(lambda j: _prog_faults_subprocess(c['seed'], c['variant'], 1 + 7919 * j[1], sets[j[0]], c.get('rep')), jobs))
     for i, fs in enumerate(sets):
         v = judge([r for (i_, _), r in zip(jobs, res) if i_ == i])
+        if v and v[0] == 'repetition':
+            return _repeat_failure(cc, _repeat_diffs([h for r in res for h in r]))
         if v:
             return {'key': {'cls': v[0], 'faults': fs}, 'case': dict(cc, faults=fs),
                     'what': f'a seeded program that met and survived the fault(s) {fs} does not reproduce itself: {v[1]}'}
@@ -443,11 +689,12 @@ def _oracle_faults(c, cc):
 
 
 def search(rng, tier):
-    c = {'kind': 'prog', 'seed': rng.randrange(2 ** 31), 'variant': rng.randrange(4), 'hashseeds': 2, 'faults': list(FAULT_POINTS), 'lines': ['rng dropout 1 0']}
+    c = {'kind': 'prog', 'seed': rng.randrange(2 ** 31), 'variant': rng.randrange(4), 'hashseeds': 2, 'faults': list(FAULT_POINTS), 'rep': _rep_params(rng), 'lines': ['rng dropout 1 0']}
     f = oracle(c)
     if f: yield f
+    order = list(REPEAT_SUBS); rng.shuffle(order)
     for v in range(4):
-        c = {'kind': 'prog', 'seed': rng.randrange(2 ** 31), 'variant': v, 'hashseeds': 4, 'lines': ['rng dropout 1 0']}
+        c = {'kind': 'prog', 'seed': rng.randrange(2 ** 31), 'variant': v, 'hashseeds': 4, 'rep': _rep_params(rng, v, order, False), 'lines': ['rng dropout 1 0']}
         f = oracle(c)
         if f: yield f
 
